@@ -207,6 +207,18 @@ func (e *Engine) verifyFunc(key string) (res *FuncResult) {
 			}
 			t := x.evalEnsuresAt(en, rsc, rs)
 			x.oblige(rs, "ensures", clauseName(en, i)+suffix, t, nil)
+			if len(en.Cut) > 0 && x.lastObl != nil {
+				// the listed locals are arbitrary values in this obligation: their terms are replaced
+				// by fresh symbols in the goal (proving the goal for every value proves it for theirs)
+				rep := map[*Term]*Term{}
+				for _, n := range en.Cut {
+					if v := rsc.locals(n, rs); v != nil && v.Tm != nil && !v.Tm.IsLit() {
+						rep[v.Tm] = x.vc.fresh("cut."+n, v.Tm.S)
+					}
+				}
+				x.lastObl.Goal = Replace(x.lastObl.Goal, rep)
+				x.lastObl.Repl = rep
+			}
 		}
 		if c.HasMod {
 			x.checkFrame(c, sc, entry, rs, suffix)
